@@ -11,6 +11,7 @@ import (
 	"path/filepath"
 	"sort"
 	"strings"
+	"sync"
 
 	"golang.org/x/tools/go/packages"
 	"golang.org/x/tools/go/ssa"
@@ -31,6 +32,38 @@ type Prog struct {
 	contractSrc map[string]string // pkgpath -> "repo" | "mirror"
 	overlay   map[string][]byte
 	loadSecs  float64
+	fnIDs     map[string]int
+	fnMu      sync.Mutex
+}
+
+// fnTermByName gives every static function (by its full ssa name) a distinct positive identifier,
+// stable across all functions verified in one run.
+func (p *Prog) fnTermByName(name string) Term {
+	p.fnMu.Lock()
+	defer p.fnMu.Unlock()
+	if p.fnIDs == nil {
+		p.fnIDs = map[string]int{}
+	}
+	id, ok := p.fnIDs[name]
+	if !ok {
+		id = 1000 + len(p.fnIDs)
+		p.fnIDs[name] = id
+	}
+	return IntLit(int64(id))
+}
+
+// lookupFunc finds a module function by a key suffix such as "testing.(*T).teardown".
+func (p *Prog) lookupFunc(suffix string) *ssa.Function {
+	var found *ssa.Function
+	for key, f := range p.funcs {
+		if key == suffix || strings.HasSuffix(key, "/"+suffix) || strings.HasSuffix(key, "."+suffix) {
+			if found != nil && found != f {
+				return nil
+			}
+			found = f
+		}
+	}
+	return found
 }
 
 func loadProg(repoDir, verifDir string, overlay map[string][]byte, preferMirror bool) (*Prog, error) {
